@@ -384,11 +384,6 @@ def parse_term(reader, ctype_value, clen, cb, body_term):
         blit(cb), body_term)
 
 
-def norm(obs):
-    """observation -> value rendered by core.to_v"""
-    return obs
-
-
 def add_parse_cases(ctx, cases, body, ctype_value, clen, cb, label,
                     body_term=None, kbv=0, blocks=None):
     """run every delivery; one model case per distinct implementation
@@ -418,7 +413,7 @@ def add_parse_cases(ctx, cases, body, ctype_value, clen, cb, label,
 # --------------------------------------------------------- correspondence
 def corr_small(ctx, cases):
     rng = ctx.rng
-    nbodies = 150 if ctx.quick else 2500
+    nbodies = 150 if ctx.quick else 1800
     maxparts = 3 if ctx.quick else 6
     for i in range(nbodies):
         # keep model-side literals small
@@ -722,7 +717,7 @@ def monitor_case(ctx, boundary, parts, final, clen_on, cb, kbv, tag,
 
 def monitor(ctx):
     rng = ctx.rng
-    n = 120 if ctx.quick else 4000
+    n = 120 if ctx.quick else 2800
     maxparts = 3 if ctx.quick else 6
     for i in range(n):
         boundary = gen_boundary(rng)
@@ -921,19 +916,23 @@ def run(ctx):
         "thorough; names/filenames from a pool with spaces, quotes, "
         "semicolons, backslashes, non-ASCII; contents from the adversarial "
         "alphabet {CR, LF, CRLF, -, --, dash-boundary prefixes, boundary "
-        "without dashes, near copies, NUL, 0xFF, space}, sizes 0..64; RFC "
-        "2046 boundaries of length 1..70), 35% made hostile (truncated, "
-        "bare-LF structure, injected delimiters, wrong Content-Length, "
-        "padding, preamble/epilogue, header variants); every body is "
-        "delivered through BytesIO and CachedInput with every block size "
-        "1..len+2 and every distinct implementation answer is one model "
-        "case; plus bodies around 8192/65536 (model side via List.repeat), "
-        "read_lines_to_outerboundary, readers, valid_boundary, parse_header "
-        "and the encoder alone.  monitor: decode(encode(parts)) == parts, "
-        "same for all deliveries, factory calls, input consumed; sizes "
-        "around 8192 and k*65536 with block sizes on the structural CRLFs; "
-        "end-to-end POST with body = data_size-2..+40.  A case is distinct "
-        "by its (body, headers, reader) / (parts, boundary, configuration).",
+        "without dashes, near copies --bX/--b-/--b--x at line starts, NUL, "
+        "0xFF, space}, sizes 0..64; RFC 2046 boundaries of length 1..70), "
+        "35% made hostile (truncated, bare-LF structure, injected "
+        "delimiters, wrong Content-Length, padding, preamble/epilogue, "
+        "header variants); every body is delivered through BytesIO and "
+        "CachedInput with every block size 1..len+2 and every distinct "
+        "implementation answer is one model case; plus bodies around "
+        "8192/65536 incl. a dash-boundary right behind the 65536 cut (model "
+        "side via List.repeat), read_lines_to_outerboundary, the two "
+        "readers, valid_boundary, parse_header and the encoder alone.  "
+        "monitor: decode(encode(parts)) == parts for every content no line "
+        "of which is a delimiter line, same for all deliveries, factory "
+        "calls, input consumed; sizes around 8192 and k*65536 with block "
+        "sizes on the structural CRLFs; end-to-end POST with body = "
+        "data_size-2..+40 (small settings and the production defaults).  A "
+        "case is distinct by its (body, headers, reader) / (parts, "
+        "boundary, configuration).",
         assumptions=[
             "email.feedparser.FeedParser, tempfile, io.BytesIO/StringIO and "
             "the codecs are trusted; the model parses part headers the way "
@@ -943,6 +942,8 @@ def run(ctx):
             "correspondence runs the real CachedInput with every block size",
             "utf8_decode is exact on well-formed UTF-8 and on bytes that "
             "cannot start a sequence; the correspondence keeps to those",
+            "round trip theorem: the header codec giving back name, filename "
+            "and media type is a hypothesis per part (headers_decode); "
             "parts whose own type is application/x-www-form-urlencoded or "
             "multipart/* and file parts with an empty filename are outside "
             "the round-trip statement (the parser treats them differently "
